@@ -15,7 +15,7 @@ def link_fault_items(rng, timeout_ns, prev_keys, version, agent_cfg, lat):
     t = lat
     for _ in range(n_bad):
         t += gen.latency(rng, 1000, max(2000, timeout_ns // 8))
-        kind = rng.choice(["rid", "rid", "community-or-user", "msgid-or-version", "stale", "truncate", "dup-late", "engine", "reflect"])
+        kind = rng.choice(["rid", "rid", "community-or-user", "msgid-or-version", "stale", "truncate", "dup-late", "engine", "reflect", "request-pdu"])
         it = {"k": "genuine", "delay_ns": t}
         if kind == "rid":
             it["rewrite"] = {"request-id": rng.choice(["prev", "zero", "plus1", "xor1", "neg", "bit31", "bit32", "hi", rng.randrange(2**31)])}
@@ -48,6 +48,9 @@ def link_fault_items(rng, timeout_ns, prev_keys, version, agent_cfg, lat):
             it["copies"] = rng.randint(2, 3)
         elif kind == "reflect":
             it = {"k": "reflect", "delay_ns": t}
+        elif kind == "request-pdu":
+            # somebody else's request (or a confused agent): a request-type PDU with a foreign id
+            it["rewrite"] = {"pdu-type": rng.choice([0xA0, 0xA1, 0xA5]), "request-id": rng.choice(["xor1", "plus1", "zero", "prev"])}
         items.append(it)
     fate = rng.choice(["deliver", "deliver", "deliver", "drop", "late", "dup", "reorder"])
     t += gen.latency(rng, 1000, max(2000, timeout_ns // 8))
@@ -197,6 +200,10 @@ class C04(Prop):
                     out.append(V("C04.delivered-nonmatching", "only non-matching datagrams arrived (%s) but the call returned %r" % ([v[1].get("why") or "rewrite" for v in verdicts], res["ok"]), op=op["op"]))
                 elif not oracle.exc_is(res["exc"], "TimeoutError"):
                     out.append(V("C04.skip-ended-wait", "a non-matching datagram ended the call with %s" % _short(res), exc=res["exc"]["exc"]))
+                elif verdicts and res["t1"] - ex["t"] < run.sess_cfg[s]["timeout_ns"] - 20_000_000:
+                    # TimeoutError is the right outcome, but only once the timeout has run: a skipped
+                    # datagram must not end the wait (a matching reply could still arrive)
+                    out.append(V("C04.skip-ended-wait", "the call consumed only non-matching datagrams and gave up after %.6f s of a %.3f s timeout" % ((res["t1"] - ex["t"]) / 1e9, run.sess_cfg[s]["timeout_ns"] / 1e9), exc="early-timeout"))
             elif kind == oracle.SOCKERR:
                 pass
         return out
